@@ -233,6 +233,22 @@ def impl(case):
                 try: r1, r2 = bool(b == other), bool(other == b)
                 except Exception: return not same
                 return (r1 and r2) if same else (r1 or r2)
+            def self_consistent():
+                # agreement of a binning with itself beyond ==: the consecutiveness question asked with and without a tolerance
+                # in either order (fresh objects: answers may be cached), one bin by integer, no selection that is not a binning
+                ok = bool(b == b)
+                exact = b.is_consecutive()
+                for first in ("tolerant", "exact"):
+                    z = build(d["spec"])
+                    if first == "tolerant": t = z.is_consecutive(rtol=0.0, atol=1e300); e = z.is_consecutive()
+                    else: e = z.is_consecutive(); t = z.is_consecutive(rtol=0.0, atol=1e300)
+                    ok = ok and bool(t) and bool(e) == bool(exact)
+                if b.bin_count >= 1:
+                    ok = ok and [float(x) for x in np.asarray(b[0], dtype=float).ravel()] == bins[0]
+                if b.bin_count >= 2:
+                    try: b[::-1]; ok = False
+                    except ValueError: pass
+                return ok
             def mask():
                 e, m = b.numpy_bins_with_mask
                 return [[float(x) for x in e], [int(x) for x in m]]
@@ -241,7 +257,7 @@ def impl(case):
                     ["numpy_bins", _try(lambda: [float(x) for x in b.numpy_bins])], ["mask", _try(mask)],
                     ["is_consecutive", _tf(b.is_consecutive())], ["is_regular", _try(lambda: _tf(b.is_regular()))],
                     ["slices", [_try(lambda a=a, e=e: slice_obs(b[a:e])) for a, e in d["slice_args"]]],
-                    ["copy_bins", bins_of(c)], ["copy_eq", _tf(c == b and c is not b)], ["eq_self", _tf(b == b)],
+                    ["copy_bins", bins_of(c)], ["copy_eq", _tf(c == b and c is not b)], ["eq_self", _tf(_try(self_consistent) is True)],
                     ["as_static_bins", bins_of(b.as_static())], ["as_fixed_width", afw(b)], ["eq_other", _tf(eq_both())], ["other_same", _tf(same)]]
         if d["kind"] == "rule":
             data = np.array([float(x) for x in d["data"]])
